@@ -178,6 +178,7 @@ type Replay struct {
 	WeakHashes []instr.HashFunc        `json:"hash_functions_weakened,omitempty"`
 	WeakBits   int                     `json:"hash_bits_kept,omitempty"`
 	SimProcs   int                     `json:"simulated_gomaxprocs,omitempty"`
+	SimEpoch   int64                   `json:"simulated_epoch_ns,omitempty"`
 	Readable   []string                `json:"readable"`
 	HowTo      string                  `json:"how_to_replay"`
 }
@@ -283,6 +284,9 @@ var curVariant string
 // curSimProcs: the simulated GOMAXPROCS/NumCPU of the process in which a
 // violation was found; explicit sessions derived from it run with the same value.
 var curSimProcs int
+
+// curSimEpoch: likewise the simulated wall-clock epoch of that process.
+var curSimEpoch int64
 
 func runExplicit(e *Env, session []workerlib.ExplicitRun) *ProcResult {
 	ses := &workerlib.Session{Mode: "explicit", Explicit: session, Variant: curVariant}
@@ -699,7 +703,8 @@ func processViolation(e *Env, c *Check, fv *foundViolation, limit time.Duration)
 	}
 	curVariant = fv.Proc.Session.Variant
 	curSimProcs = fv.Proc.Session.SimProcs
-	defer func() { curVariant = ""; curSimProcs = 0 }()
+	curSimEpoch = fv.Proc.Session.SimEpoch
+	defer func() { curVariant = ""; curSimProcs = 0; curSimEpoch = 0 }()
 	sig := violSig(fv.V)
 	pickRaceSig := func(pr *ProcResult) string {
 		sg, _, _ := sigsOf(e, pr)
@@ -789,6 +794,7 @@ func processViolation(e *Env, c *Check, fv *foundViolation, limit time.Duration)
 	rp := &Replay{Property: "C05", Kind: fv.V.Kind, Signature: sig, Seed: c.Seed, RunSeed: fv.V.Seed, Stage: fv.Stage,
 		TreeDigest: e.TreeDig, SiteDigest: e.Report.SiteDigest, Session: small, HowTo: "cd /verif && ./run C05 --replay <this file>"}
 	rp.SimProcs = curSimProcs
+	rp.SimEpoch = curSimEpoch
 	if v := e.Variants[curVariant]; v != nil {
 		rp.Variant = v.Name
 		rp.Knobs = v.Knobs
